@@ -121,6 +121,90 @@ impl Basis {
     }
 }
 
+/// Outcome of the reference signer on one tape.
+pub struct RefSignature {
+    pub salt: [u8; 40],
+    pub s1: Vec<i64>,
+    pub s2: Vec<i64>,
+    pub sampler_calls: u64,
+}
+
+impl Basis {
+    /// ffSampling (specification Algorithm 11) on the harness's own tree and FFT, with the
+    /// reference SamplerZ on `tape`. Order of the sampler calls: right subtree (z1) before left, and
+    /// at a bottom node the even half before the odd half - the order of the specification.
+    fn ffsampling(&self, t0: &[C], t1: &[C], tree: &fft::Tree, sigma: f64, sigmin: f64, tape: &mut dyn FnMut() -> u8, calls: &mut u64) -> (Vec<C>, Vec<C>) {
+        use crate::reference::keygen::sampler_z;
+        match tree {
+            fft::Tree::Node { l10, left, right } => {
+                if t0.len() == 1 {
+                    if let (fft::Tree::Leaf(dl), fft::Tree::Leaf(dr)) = (left.as_ref(), right.as_ref()) {
+                        // the two leaves of a bottom node are the same number (the odd part of a
+                        // self-adjoint element of R[x]/(x^2+1) vanishes), and l10 = 0
+                        *calls += 2;
+                        let z0 = sampler_z(t0[0].re, sigma / dl.sqrt(), sigmin, tape);
+                        let z1 = sampler_z(t1[0].re, sigma / dr.sqrt(), sigmin, tape);
+                        return (vec![C::new(z0 as f64, 0.0)], vec![C::new(z1 as f64, 0.0)]);
+                    }
+                }
+                let (e, o) = fft::split(t1);
+                let (ze, zo) = self.ffsampling(&e, &o, right, sigma, sigmin, tape, calls);
+                let z1 = fft::merge(&ze, &zo);
+                let t0p = fft::padd(t0, &fft::pmul(&fft::psub(t1, &z1), l10));
+                let (e, o) = fft::split(&t0p);
+                let (ze, zo) = self.ffsampling(&e, &o, left, sigma, sigmin, tape, calls);
+                (fft::merge(&ze, &zo), z1)
+            }
+            fft::Tree::Leaf(_) => (t0.to_vec(), t1.to_vec()),
+        }
+    }
+
+    /// The specification's Sign (Algorithm 10) executed by the harness's own arithmetic on a byte
+    /// tape, in the tape layout of falcon-rust's sign (40 bytes of salt; per compression attempt 32
+    /// bytes that are not used; 17 bytes per sampler iteration). On a uniform tape the result follows
+    /// the law the property is about, whatever the tape layout of the implementation under test; if
+    /// the implementation consumes its entropy in this layout the two signatures are equal.
+    pub fn ref_sign(&self, msg: &[u8], sigma: f64, sigmin: f64, bound: i64, sig_len: usize, tape: &mut dyn FnMut() -> u8) -> RefSignature {
+        let n = self.n;
+        let mut salt = [0u8; 40];
+        for b in salt.iter_mut() {
+            *b = tape();
+        }
+        let mut sm = salt.to_vec();
+        sm.extend_from_slice(msg);
+        let c = hash_to_point(&sm, n);
+        let ch = fft::fft(&tofloat(&c));
+        let q = 12289.0;
+        let t0: Vec<C> = (0..n).map(|i| C::new(1.0 / q, 0.0) * ch[i] * self.cf_hat[i]).collect();
+        let t1: Vec<C> = (0..n).map(|i| C::new(-1.0 / q, 0.0) * ch[i] * self.f_hat[i]).collect();
+        let mut calls = 0u64;
+        loop {
+            for _ in 0..32 {
+                tape();
+            }
+            let s2 = loop {
+                let (z0, z1) = self.ffsampling(&t0, &t1, &self.tree, sigma, sigmin, tape, &mut calls);
+                let d0 = fft::psub(&t0, &z0);
+                let d1 = fft::psub(&t1, &z1);
+                let s0 = fft::padd(&fft::pmul(&d0, &self.g_hat), &fft::pmul(&d1, &self.cg_hat));
+                let s1 = fft::padd(&fft::pmul(&d0, &self.f_hat), &fft::pmul(&d1, &self.cf_hat));
+                let len2 = (s0.iter().map(|x| x.norm2()).sum::<f64>() + s1.iter().map(|x| x.norm2()).sum::<f64>()) / n as f64;
+                if len2 > bound as f64 {
+                    continue;
+                }
+                break fft::ifft(&s1).iter().map(|x| x.round() as i64).collect::<Vec<i64>>();
+            };
+            if codec::compress(&s2, sig_len - 41).is_none() {
+                continue;
+            }
+            let ntt = Ntt::new(n);
+            let prod = ntt.mul(&s2, &self.h);
+            let s1: Vec<i64> = (0..n).map(|i| centred(c[i] - prod[i])).collect();
+            return RefSignature { salt, s1, s2, sampler_calls: calls };
+        }
+    }
+}
+
 /// recover (s1, s2) from a signature with the harness's own arithmetic
 pub fn recover(n: usize, ntt: &Ntt, h: &[i64], msg: &[u8], sig: &[u8]) -> Option<(Vec<i64>, Vec<i64>)> {
     if sig.len() < 41 {
@@ -146,11 +230,40 @@ pub struct Acc {
     pub norm_sum: f64,
     pub over_bound: u64,
     pub max_norm: i64,
+    // comparison with the reference signer on the same tapes
+    /// signatures for which a reference signature was made
+    pub rm: u64,
+    /// of those, byte-identical (s2 and salt)
+    pub identical: u64,
+    pub ref_norm_sum: f64,
+    /// sum and sum of squares of (||s||^2 - ||s_ref||^2)
+    pub dn_sum: f64,
+    pub dn_sq: f64,
+    /// per direction: sum and sum of squares of (<s,u>^2 - <s_ref,u>^2)
+    pub dsq_sum: Vec<f64>,
+    pub dsq_sq: Vec<f64>,
 }
+
+const ACC_HEAD: usize = 10;
 
 impl Acc {
     fn new(dirs: usize) -> Acc {
-        Acc { m: 0, sum: vec![0.0; dirs], sq: vec![0.0; dirs], cross: vec![0.0; 3 * dirs / 2], norm_sum: 0.0, over_bound: 0, max_norm: 0 }
+        Acc {
+            m: 0,
+            sum: vec![0.0; dirs],
+            sq: vec![0.0; dirs],
+            cross: vec![0.0; 3 * dirs / 2],
+            norm_sum: 0.0,
+            over_bound: 0,
+            max_norm: 0,
+            rm: 0,
+            identical: 0,
+            ref_norm_sum: 0.0,
+            dn_sum: 0.0,
+            dn_sq: 0.0,
+            dsq_sum: vec![0.0; dirs],
+            dsq_sq: vec![0.0; dirs],
+        }
     }
     fn to_blob(&self) -> Vec<u8> {
         let mut b = Vec::new();
@@ -158,7 +271,13 @@ impl Acc {
         b.extend_from_slice(&self.norm_sum.to_le_bytes());
         b.extend_from_slice(&self.over_bound.to_le_bytes());
         b.extend_from_slice(&self.max_norm.to_le_bytes());
-        for v in self.sum.iter().chain(self.sq.iter()).chain(self.cross.iter()) {
+        b.extend_from_slice(&self.rm.to_le_bytes());
+        b.extend_from_slice(&self.identical.to_le_bytes());
+        b.extend_from_slice(&self.ref_norm_sum.to_le_bytes());
+        b.extend_from_slice(&self.dn_sum.to_le_bytes());
+        b.extend_from_slice(&self.dn_sq.to_le_bytes());
+        b.extend_from_slice(&0u64.to_le_bytes());
+        for v in self.sum.iter().chain(self.sq.iter()).chain(self.cross.iter()).chain(self.dsq_sum.iter()).chain(self.dsq_sq.iter()) {
             b.extend_from_slice(&v.to_le_bytes());
         }
         b
@@ -170,13 +289,21 @@ impl Acc {
         self.norm_sum += f(1);
         self.over_bound += u(2);
         self.max_norm = self.max_norm.max(u(3) as i64);
+        self.rm += u(4);
+        self.identical += u(5);
+        self.ref_norm_sum += f(6);
+        self.dn_sum += f(7);
+        self.dn_sq += f(8);
         let d = self.sum.len();
+        let c = self.cross.len();
         for i in 0..d {
-            self.sum[i] += f(4 + i);
-            self.sq[i] += f(4 + d + i);
+            self.sum[i] += f(ACC_HEAD + i);
+            self.sq[i] += f(ACC_HEAD + d + i);
+            self.dsq_sum[i] += f(ACC_HEAD + 2 * d + c + i);
+            self.dsq_sq[i] += f(ACC_HEAD + 3 * d + c + i);
         }
-        for i in 0..self.cross.len() {
-            self.cross[i] += f(4 + 2 * d + i);
+        for i in 0..c {
+            self.cross[i] += f(ACC_HEAD + 2 * d + i);
         }
     }
 }
@@ -192,6 +319,21 @@ fn run_chunk<V: Variant, W: Variant>(seed: u64, run: u64, key_index: usize, chun
         if let Ok((wsk, _)) = w.load() {
             let _ = crate::world::sign_sim::<W>(&wsk, b"warm-up with the other variant", &crate::world::SignPlan::uniform(run ^ 0x77), None);
             st.inc("warmups_with_other_variant");
+        }
+    }
+    // history (every other run): everything happens on ONE thread, the run's own - an earlier key of the
+    // same variant is loaded, signs once and is dropped; then the key under test is loaded (it tends to
+    // land where the earlier key was) and signs the whole history. A per-thread table keyed by an
+    // address, or by anything else a later key can share with an earlier one, would serve the later key
+    // the earlier key's data.
+    let rotation = chunk % 2 == 1 && pool.keys.len() > 1;
+    if rotation {
+        let other = &pool.keys[(key_index + 1) % pool.keys.len()];
+        if let Ok(okp) = other.load() {
+            let held: Keys<V> = Arc::new(vec![okp]);
+            let _ = crate::world::sign_sim::<V>(&held[0].0, b"an earlier key of the same variant", &crate::world::SignPlan::uniform(run ^ 0x55), None);
+            st.inc("histories_with_an_earlier_key_of_the_same_variant");
+            drop(held);
         }
     }
     let k = &pool.keys[key_index];
@@ -216,7 +358,7 @@ fn run_chunk<V: Variant, W: Variant>(seed: u64, run: u64, key_index: usize, chun
     };
     let keys: Keys<V> = Arc::new(vec![kp]);
     let mut rng = Prng::new(report::run_seed(seed, PROP, run));
-    let nthreads = 1 + rng.usize_below(4);
+    let nthreads = if rotation { 1 } else { 1 + rng.usize_below(4) };
     let mut threads: Vec<Vec<Op>> = vec![Vec::new(); nthreads];
     for i in 0..per_chunk {
         // distinct messages: key, chunk, index
@@ -234,7 +376,22 @@ fn run_chunk<V: Variant, W: Variant>(seed: u64, run: u64, key_index: usize, chun
         threads,
         align: None,
     };
-    let (res, sched) = signers::execute::<V>(&plan, keys);
+    let (res, sched) = if rotation {
+        // on this thread, without the scheduler
+        let mut v = Vec::new();
+        for op in &plan.threads[0] {
+            if let (Op::Sign { msg, .. }, Some(sp)) = (op, op.sign_plan()) {
+                let (r, trace) = crate::world::sign_sim::<V>(&keys[0].0, msg, &sp, None);
+                v.push(match r {
+                    Ok(sig) => OpResult::Sig { bytes: V::sig_to_bytes(&sig), trace, preempted: 0 },
+                    Err(u) => OpResult::Unwound(u),
+                });
+            }
+        }
+        (vec![Ok(v)], crate::sched::SchedStats::default())
+    } else {
+        signers::execute::<V>(&plan, keys)
+    };
     if sched.free_running {
         st.inc("inconclusive.schedule_infeasible");
         out.stats = st;
@@ -283,6 +440,30 @@ fn run_chunk<V: Variant, W: Variant>(seed: u64, run: u64, key_index: usize, chun
                             acc.sum[d] += v;
                             acc.sq[d] += v * v;
                         }
+                        // the reference signer on the same tape (the op's stream: SimStream draws every
+                        // byte it hands out from one generator, in the order in which it is asked)
+                        if let Op::Sign { stream, .. } = &plan.threads[t][i] {
+                            let mut tp = Prng::new(*stream);
+                            let _junk = tp.fork(0x6a756e6b);
+                            let mut tape = || tp.byte();
+                            let r = basis.ref_sign(msg, V::SIGMA, V::SIGMIN, bound, V::SIG_LEN, &mut tape);
+                            let rn: i64 = r.s1.iter().chain(r.s2.iter()).map(|x| x * x).sum();
+                            acc.rm += 1;
+                            if r.s2 == s2 && r.salt[..] == bytes[1..41] {
+                                acc.identical += 1;
+                            } else {
+                                let rp = basis.project(&r.s1, &r.s2);
+                                for d in 0..p.len() {
+                                    let dd = p[d] * p[d] - rp[d] * rp[d];
+                                    acc.dsq_sum[d] += dd;
+                                    acc.dsq_sq[d] += dd * dd;
+                                }
+                            }
+                            acc.ref_norm_sum += rn as f64;
+                            let dn = (norm - rn) as f64;
+                            acc.dn_sum += dn;
+                            acc.dn_sq += dn * dn;
+                        }
                         let gs = &p[2 * n..];
                         for lag in 1..=3usize {
                             for i in 0..2 * n - lag {
@@ -329,7 +510,7 @@ pub struct Ctx {
 fn sizes(tier: Tier) -> (usize, usize, u64, usize) {
     // (keys 512, keys 1024, chunks per key, signatures per chunk)
     match tier {
-        Tier::Quick => (3, 1, 32, 125),
+        Tier::Quick => (3, 1, 32, 250),
         Tier::Thorough => (6, 2, 80, 250),
     }
 }
@@ -432,6 +613,8 @@ fn evaluate(rep: &mut Report) {
     let seed = rep.seed;
     let tier = rep.tier.name();
     let mut table = Vec::new();
+    // per key: (variant, paired norm z, paired z of the four Gram-Schmidt norm quartiles), pooled over keys afterwards
+    let mut paired: Vec<(usize, f64, [f64; 4])> = Vec::new();
     for (tag, a) in accs.iter() {
         let n = (tag >> 32) as usize;
         let key = tag & 0xffff_ffff;
@@ -504,8 +687,91 @@ fn evaluate(rep: &mut Report) {
             "worst_direction_second_moment_dev": (worst_ratio * 1e4).round() / 1e4, "per_direction_tolerance": (tol * 1e4).round() / 1e4,
             "gs_mean_dispersion": (mean_disp * 1e3).round() / 1e3, "max_norm": a.max_norm,
             "neighbour_correlation_z_lag1_2_3": corr_z.iter().map(|z| (z * 100.0).round() / 100.0).collect::<Vec<_>>()}));
+        // comparison with the reference signer on the same tapes (paired; exact zeros if the
+        // implementation is in lock-step with the specification's Sign on that tape layout)
+        let rm = a.rm as f64;
+        let mut ref_norm_z = 0.0;
+        let mut ref_dir_worst = 0.0f64;
+        let mut ref_dir_disp = 0.0;
+        let mut ref_dirs = 0usize;
+        if a.rm >= 500 {
+            let md = a.dn_sum / rm;
+            let vd = a.dn_sq / rm - md * md;
+            if vd > 0.0 {
+                ref_norm_z = md / (vd / rm).sqrt();
+            }
+            let mut t = 0.0;
+            for d in 0..dirs {
+                let md = a.dsq_sum[d] / rm;
+                let vd = a.dsq_sq[d] / rm - md * md;
+                if vd > 0.0 {
+                    let z = md / (vd / rm).sqrt();
+                    ref_dir_worst = ref_dir_worst.max(z.abs());
+                    t += z * z;
+                    ref_dirs += 1;
+                }
+            }
+            if ref_dirs > 0 {
+                ref_dir_disp = t / ref_dirs as f64;
+            }
+        }
+        // paired second moment per quartile of Gram-Schmidt norm (the coordinates of one signature are
+        // independent under the specification, so the variance of a class sum is the sum of variances)
+        let mut ref_quart_z = [0.0f64; 4];
+        if a.rm >= 500 {
+            if let Some(g) = gsn.get(tag) {
+                let g = &g[..2 * n];
+                let mut order: Vec<usize> = (0..2 * n).collect();
+                order.sort_by(|&x, &y| g[x].partial_cmp(&g[y]).unwrap());
+                for b in 0..4 {
+                    let (mut md, mut vd) = (0.0, 0.0);
+                    for &i in &order[b * n / 2..(b + 1) * n / 2] {
+                        let d = 2 * n + i;
+                        let m1 = a.dsq_sum[d] / rm;
+                        md += m1;
+                        vd += (a.dsq_sq[d] / rm - m1 * m1) / rm;
+                    }
+                    if vd > 0.0 {
+                        ref_quart_z[b] = md / vd.sqrt();
+                    }
+                }
+            }
+            paired.push((n, ref_norm_z, ref_quart_z));
+        }
+        if let Some(Value::Object(o)) = table.last_mut() {
+            o.insert("reference_signer".into(), json!({"signatures": a.rm, "identical": a.identical,
+                "mean_norm_ratio_reference": (a.ref_norm_sum / rm.max(1.0) / (2.0 * n as f64 * sigma * sigma) * 1e5).round() / 1e5,
+                "paired_norm_z": (ref_norm_z * 100.0).round() / 100.0,
+                "paired_direction_worst_z": (ref_dir_worst * 100.0).round() / 100.0,
+                "paired_direction_dispersion": (ref_dir_disp * 1e3).round() / 1e3,
+                "paired_gs_quartile_z": ref_quart_z.iter().map(|z| (z * 100.0).round() / 100.0).collect::<Vec<_>>()}));
+        }
         if a.over_bound > 0 {
             // already reported by the run itself
+        }
+        if let Some(b) = (0..4).find(|&b| ref_quart_z[b].abs() > 6.5) {
+            alarm(
+                "second moment of a Gram-Schmidt norm quartile against the reference signer",
+                format!("quartile {} (1 = smallest Gram-Schmidt norms, i.e. widest leaves): {:.1} standard errors over {} tapes ({} signatures identical to the reference's)", b + 1, ref_quart_z[b], a.rm, a.identical),
+                rep,
+            );
+            continue;
+        }
+        if ref_norm_z.abs() > 6.5 {
+            alarm(
+                "mean squared norm against the reference signer",
+                format!("||s||^2 - ||s_ref||^2 over {} tapes: mean {:.1}, {:.1} standard errors ({} signatures identical to the reference's)", a.rm, a.dn_sum / rm, ref_norm_z, a.identical),
+                rep,
+            );
+            continue;
+        }
+        if ref_dirs >= 64 && (ref_dir_worst > 7.5 || ref_dir_disp > 1.0 + 8.0 * (2.0 / ref_dirs as f64).sqrt()) {
+            alarm(
+                "second moments along secret directions against the reference signer",
+                format!("<s,u>^2 - <s_ref,u>^2 over {} tapes and {} directions: worst direction {:.1} standard errors, mean squared z {:.3} ({} signatures identical to the reference's)", a.rm, ref_dirs, ref_dir_worst, ref_dir_disp, a.identical),
+                rep,
+            );
+            continue;
         }
         if (norm_ratio - 1.0).abs() > 0.006 {
             alarm("mean squared norm", format!("mean ||s||^2/(2n sigma^2) = {:.5} over {} signatures", norm_ratio, a.m), rep);
@@ -530,6 +796,30 @@ fn evaluate(rep: &mut Report) {
         }
         rep.stats.distinct.insert(*tag);
     }
+    // the same paired statistics pooled over the keys of a variant, and over all keys
+    let mut pooled_rows = Vec::new();
+    for which in [512usize, 1024, 0] {
+        let sel: Vec<&(usize, f64, [f64; 4])> = paired.iter().filter(|p| which == 0 || p.0 == which).collect();
+        if sel.len() < 2 {
+            continue;
+        }
+        let k = (sel.len() as f64).sqrt();
+        let zn = sel.iter().map(|p| p.1).sum::<f64>() / k;
+        let zq: Vec<f64> = (0..4).map(|b| sel.iter().map(|p| p.2[b]).sum::<f64>() / k).collect();
+        let label = if which == 0 { "all keys".to_string() } else { format!("keys of variant {}", which) };
+        pooled_rows.push(json!({"over": label, "keys": sel.len(), "paired_norm_z": (zn * 100.0).round() / 100.0, "paired_gs_quartile_z": zq.iter().map(|z| (z * 100.0).round() / 100.0).collect::<Vec<_>>()}));
+        let worst = zq.iter().cloned().fold(zn.abs(), |x, y| x.max(y.abs()));
+        if worst > 5.5 && !rep.violations.iter().any(|v| v.class.contains("pooled over keys")) {
+            rep.violations.push(Violation {
+                property: PROP,
+                class: "signature law deviates from the reference signer's (paired statistics pooled over keys)".into(),
+                detail: format!("{}: norm z {:.1}, Gram-Schmidt norm quartile z {:?} (alarm at 5.5)", label, zn, zq.iter().map(|z| (z * 10.0).round() / 10.0).collect::<Vec<_>>()),
+                replay: json!({"kind": "law_eval", "seed": seed, "tier": tier, "n": which, "key": 0}),
+                run: (1 << 42) + 999,
+            });
+        }
+    }
+    rep.extra.insert("law_table_pooled_over_keys".into(), Value::Array(pooled_rows));
     rep.extra.insert("law_table".into(), Value::Array(table));
 }
 
